@@ -171,10 +171,19 @@ fn case(rng: &mut Rng, pool: &Pool, rep: &mut Report, case_no: u64) {
     let mut calls = 0usize;
     let mut verdict: Option<(String, String)> = None;
     let mut ill_seen = false;
+    // every 12th builder is filled by a cleanup guard while its thread unwinds from something else
+    let in_destructor = rng.chance(1, 12) && plan.items.len() <= 60;
+    if in_destructor {
+        rep.metric("builders_filled_from_a_destructor_during_unwinding", 1);
+    }
     for (idx, it) in plan.items.iter().enumerate() {
         calls += 1;
         // inner builders of a batch are built by `register` (all inner plans are well-formed)
-        let r = catch_unwind(AssertUnwindSafe(|| register(&mut b, it, &ctx, Some(pool))));
+        let r = if in_destructor {
+            during_unwind(|| register(&mut b, it, &ctx, Some(pool))).map_err(|m| Box::new(m) as Box<dyn std::any::Any + Send>)
+        } else {
+            catch_unwind(AssertUnwindSafe(|| register(&mut b, it, &ctx, Some(pool))))
+        };
         let expect_ill = match &ill {
             Ill::UnknownDep(at, _) | Ill::DupName(at, _) => *at == idx,
             Ill::None => false,
